@@ -9,10 +9,11 @@ FN = {"x2": ["xy.DistanceFromLineToLine", "xy.DistanceFromLineToLine(swapped)", 
              "xy.DistanceFromPointToLine(a;cd)"],
       "x3": ["xyz.DistanceLineToLine", "xyz.DistanceLineToLine(swapped)", "xyz.DistancePointToLine(c;ab)",
              "xyz.DistancePointToLine(a;cd)"]}
-SPEC = {"x2": ["SqDistSegSeg2(%(a)s, %(b)s, %(c)s, %(d)s)", "SqDistSegSeg2(%(c)s, %(d)s, %(a)s, %(b)s)",
-               "SqDistPtSeg2(%(c)s, %(a)s, %(b)s)", "SqDistPtSeg2(%(a)s, %(c)s, %(d)s)"],
-        "x3": ["SqDistSegSeg3(%(a)s, %(b)s, %(c)s, %(d)s)", "SqDistSegSeg3(%(c)s, %(d)s, %(a)s, %(b)s)",
-               "SqDistPtSeg3(%(c)s, %(a)s, %(b)s)", "SqDistPtSeg3(%(a)s, %(c)s, %(d)s)"]}
+# candidate SETS (no CHOOSE: see the comment at SqDistSegSeg2Set in ExactGeom.tla)
+SPEC = {"x2": ["SqDistSegSeg2Set(%(a)s, %(b)s, %(c)s, %(d)s)", "SqDistSegSeg2Set(%(c)s, %(d)s, %(a)s, %(b)s)",
+               "{SqDistPtSeg2(%(c)s, %(a)s, %(b)s)}", "{SqDistPtSeg2(%(a)s, %(c)s, %(d)s)}"],
+        "x3": ["SqDistSegSeg3Set(%(a)s, %(b)s, %(c)s, %(d)s)", "SqDistSegSeg3Set(%(c)s, %(d)s, %(a)s, %(b)s)",
+               "{SqDistPtSeg3(%(c)s, %(a)s, %(b)s)}", "{SqDistPtSeg3(%(a)s, %(c)s, %(d)s)}"]}
 
 
 def big_pipe(ctx, verdict, cases, name="distx"):
@@ -38,7 +39,7 @@ def big_pipe(ctx, verdict, cases, name="distx"):
                 P = dict(zip("abcd", [ec.tla_pt(i_in[dim * j:dim * j + dim]) for j in range(4)]))
                 sc = max(1, max(abs(v) for v in i_in))
                 for j, g in enumerate(i_out):
-                    parts.append("DistExactOK(%s, %d, 1000000000, %s)" % (ec.tla_int(g), sc, SPEC[c["op"]][j] % P))
+                    parts.append("DistExactOKSet(%s, %d, 1000000000, %s)" % (ec.tla_int(g), sc, SPEC[c["op"]][j] % P))
         exprs.append(" /\\ ".join(parts))
         sigs.append("dist|big|%s|%s|%s" % (c["op"], c["fam"].split("/")[0], why))
     return ec.apalache_obs(ctx, verdict, "DistX", exprs, cases, sigs, name, per_module=8 if ctx.quick else 16)
